@@ -109,6 +109,37 @@ def make_norm_module(torch, o3, irs, nz, sc, kind, nparams, rec_out=None):
     return Mod(), irreps, sec
 
 
+def make_multi_module(torch, o3, outs, nz, kind, container, nparams, rec_out=None):
+    """several inputs -> several outputs (tuple or list); output i = known-second-moment function of input i.
+    outs = [(irreps string, amplitude factor)]"""
+    irreps = [o3.Irreps(irs) for irs, _ in outs]
+    amps = []
+    for irr, (_, sc) in zip(irreps, outs):
+        amp = torch.ones(irr.dim)
+        for (mul, ir), sl in zip(irr, irr.slices()):
+            base = 1.0 if nz == "component" else 1.0 / math.sqrt(ir.dim)
+            amp[sl] = float(sc) * (1.0 if kind == "identity" else base)
+        amps.append(amp)
+
+    class Mod(torch.nn.Module):
+        def __init__(self):
+            super().__init__()
+            self.ps = torch.nn.ParameterList([torch.nn.Parameter(torch.zeros(1)) for _ in range(nparams)])
+
+        def forward(self, *xs):
+            ys = []
+            for x, amp in zip(xs, amps):
+                y = (x if kind == "identity" else torch.sign(x)) * amp
+                if kind == "weighted":
+                    y = y * (1.0 + 0.3 * torch.tanh(self.ps[0]))
+                ys.append(y)
+            if rec_out is not None:
+                rec_out.append([y.detach().clone() for y in ys])
+            return tuple(ys) if container == "tuple" else list(ys)
+
+    return Mod(), irreps
+
+
 # ----------------------------------------------------------------------------------------------
 def run(ctx):
     ok, out = ctx.lake_build(TARGETS)
@@ -134,6 +165,7 @@ def _run(ctx, torch):
     st.stream_wrap()
     st.stream_nweight()
     st.stream_norm()
+    st.stream_norm_multi()
     st.stream_special_irreps()
     st.stream_cases()
     st.stream_equivariance()
@@ -421,6 +453,98 @@ class State:
                     lambda o, rec=rec, variant=variant: rec["model"].__setitem__(variant, o),
                 )
 
+    def stream_norm_multi(self):
+        """functions with 2 and 3 outputs (tuple and list), exactly normalised or off by sqrt(2) / 0.5 in one
+        position: verdict against the plain-mean oracle, verdict + logged errors against the model."""
+        torch, o3 = self.torch, self.o3
+        rng = self.rng
+        r2 = math.sqrt(2.0)
+        patterns = [(1.0, 1.0), (r2, 1.0), (1.0, r2), (0.5, 1.0), (1.0, 0.5), (1.0, 1.0, 1.0)]
+        for pos in range(3):
+            for f in (r2, 0.5):
+                patterns.append(tuple(f if i == pos else 1.0 for i in range(3)))
+        cases = [(pat, cont, nz, kind) for pat in patterns for cont in ("tuple", "list") for nz in ("component", "norm")
+                 for kind in ("exact", "identity", "weighted")]
+        if self.quick:
+            keep = [c for c in cases if c[3] == "exact"]
+            rest = [c for c in cases if c[3] != "exact"]
+            rng.shuffle(rest)
+            cases = keep + rest[:16]
+        pool = ["8x1o", "4x0e+3x2e", "5x0e", "2x0e+0x1o+2x3o", "3x1e+2x2o"]
+        for (pat, cont, nz, kind) in cases:
+            outs = [(rng.choice(pool), sc) for sc in pat]
+            atol = 0.1
+            n_input = 20000 if kind == "identity" else rng.choice([7, 64, 333])
+            nparams = 1 if kind == "weighted" else (rng.choice([0, 2]) if kind == "exact" else 0)
+            if kind == "weighted":
+                n_weight = rng.choice([2, 3, 5])
+            elif nparams:
+                n_weight = rng.choice([1, 3, 5])
+            else:
+                n_weight = rng.choice([None, 1])
+            rec_out = []
+            mod, irreps = make_multi_module(torch, o3, outs, nz, kind, cont, nparams, rec_out)
+            tseed = rng.randrange(2**31)
+            torch.manual_seed(tseed)
+            pyrandom.seed(rng.randrange(2**31))
+            res, logged = self.run_assert_normalized(
+                mod, irreps_in=list(irreps), irreps_out=list(irreps), normalization=nz, n_input=n_input, n_weight=n_weight, atol=atol
+            )
+            desc = ("norm-multi", tuple(outs), cont, nz, kind, n_input, n_weight)
+            real_pass = res == "pass"
+            self.ctx.case(desc, nontrivial=True)
+            self.ctx.count(f"norm-multi:{len(outs)}:{cont}:{'pass' if real_pass else 'fail'}")
+            if not real_pass and not res.startswith("AssertionError:<"):
+                # not a tolerance verdict (length assertion, AttributeError, ...): a sequence of len(irreps_out)
+                # tensors must be measured
+                self.found("assert_normalized/multi-output", {
+                    "outs": outs, "container": cont, "normalization": nz, "kind": kind, "n_params": nparams, "n_input": n_input,
+                    "n_weight": n_weight, "atol": atol, "torch_seed": tseed, "expected": "a verdict on the second moments", "got": res})
+                continue
+            # plain-mean oracle per output
+            worst_margin, spec_pass, observed = None, True, []
+            for o, irr in enumerate(irreps):
+                e_plain = torch.cat([b[o] for b in rec_out], dim=0).to(torch.float64).square().mean(dim=0)
+                for (mul, ir), sl in zip(irr, irr.slices()):
+                    if mul == 0:
+                        continue
+                    tgt = 1.0 if nz == "component" else 1.0 / ir.dim
+                    dev = (e_plain[sl] - tgt).abs().max().item()
+                    observed.append({"output": o, "irrep": str(ir), "promised": tgt,
+                                     "observed_range": [e_plain[sl].min().item(), e_plain[sl].max().item()]})
+                    margin = abs(dev - atol)
+                    worst_margin = margin if worst_margin is None else min(worst_margin, margin)
+                    if dev > atol:
+                        spec_pass = False
+            if worst_margin is not None and worst_margin > 1e-6 and spec_pass != real_pass:
+                self.found("assert_normalized/multi-output", {
+                    "call": f"assert_normalized(mod, irreps_in=irreps, irreps_out=irreps, normalization='{nz}', n_input={n_input}, "
+                            f"n_weight={n_weight}, atol={atol})   # irreps = {[str(i) for i in irreps]}",
+                    "module": f"(x_1..x_k) -> {cont} of f(x_i)*factor_i, f = " + {"exact": "sign (second moment exactly factor**2 * promised)",
+                              "identity": "identity", "weighted": "sign * (1 + 0.3 tanh(w)), w re-initialised per batch"}[kind],
+                    "outs": outs, "container": cont, "normalization": nz, "kind": kind, "n_params": nparams, "n_input": n_input,
+                    "n_weight": n_weight, "atol": atol, "torch_seed": tseed,
+                    "mean_square_of_all_outputs_seen": observed,
+                    "expected": "pass" if spec_pass else "AssertionError", "got": res,
+                    "logged_max_componentwise_errors": logged,
+                    "lean": "running_average_is_mean + accepts_iff: every output's statistic is the plain mean over all samples"})
+            # model correspondence, both target variants
+            toks = [str(n_input), bits(atol), str(len(irreps))]
+            for o, irr in enumerate(irreps):
+                blocks = [(mul, ir.l) for mul, ir in irr]
+                toks += ["1", str(len(blocks))]
+                for mul, l in blocks:
+                    toks += [str(mul), str(l)]
+                comps = [b[o].square().sum(dim=0) for b in rec_out]
+                toks += [str(irr.dim), str(len(comps))]
+                for c in range(irr.dim):
+                    toks += [bits(comps[b][c].item()) for b in range(len(comps))]
+            rec = {"desc": desc, "real_pass": real_pass, "logged": logged, "model": {}, "nontriv": True}
+            self.norm_records.append(rec)
+            for variant in ["code", "spec"]:
+                self.op("norm", " ".join(["norm", variant, nz] + toks), desc,
+                        lambda o_, rec=rec, variant=variant: rec["model"].__setitem__(variant, o_))
+
     def stream_special_irreps(self):
         """'cartesian_points' / None entries: assert_normalized has a branch for them (test.py:476) but
         crashes before reaching it."""
@@ -546,6 +670,37 @@ class State:
                       iin=[xin, None], iout=[xin], broken=none))
         Z.append(dict(name="None output", f=lambda x: (la(x), x.norm(dim=-1, keepdim=True) * 0 + 1.5), args=[xin.randn(3, -1)],
                       iin=[xin], iout=[la.irreps_out, None], broken=none))
+        # defect sitting exactly in a `None` / 'cartesian_points' output of several (None = must be invariant)
+        ctr = lambda p: p - p.mean(dim=0, keepdim=True)
+        trip = lambda x, y, z_: (torch.linalg.cross(x, y) * z_).sum(-1, keepdim=True)
+        Z.append(dict(name="None output of two: rotation-broken (x-coordinate declared invariant)",
+                      f=lambda x: (x, x[:, :1]), args=[torch.randn(4, 3)], iin=[I("1o")], iout=[I("1o"), None],
+                      broken=lambda k, t, o: o == 1))
+        Z.append(dict(name="None output of two: parity-broken (triple product declared invariant)",
+                      f=lambda x, y, z_: (x, trip(x, y, z_)), args=[torch.randn(4, 3), torch.randn(4, 3), torch.randn(4, 3)],
+                      iin=[I("1o")] * 3, iout=[I("1o"), None], broken=lambda k, t, o: o == 1 and k == 1))
+        Z.append(dict(name="None output of two: translation-broken (|pos| declared invariant)",
+                      f=lambda p: (ctr(p), p.norm(dim=-1, keepdim=True)), args=[torch.randn(5, 3)],
+                      iin=["cartesian_points"], iout=[I("1o"), None], broken=lambda k, t, o: o == 1 and t))
+        Z.append(dict(name="None output of three (list, middle): translation-broken",
+                      f=lambda p: [ctr(p), p.norm(dim=-1, keepdim=True), ctr(p).norm(dim=-1, keepdim=True)], args=[torch.randn(5, 3)],
+                      iin=["cartesian_points"], iout=[I("1o"), None, None], broken=lambda k, t, o: o == 1 and t))
+        Z.append(dict(name="None outputs (control: |x| and centred norms are invariant)",
+                      f=lambda p: (ctr(p), ctr(p).norm(dim=-1, keepdim=True)), args=[torch.randn(5, 3)],
+                      iin=["cartesian_points"], iout=[I("1o"), None], broken=none))
+        Z.append(dict(name="cartesian_points output of two: rotation-broken (pos + fixed vector)",
+                      f=lambda p: (ctr(p), p + v), args=[torch.randn(5, 3)],
+                      iin=["cartesian_points"], iout=[I("1o"), "cartesian_points"], broken=lambda k, t, o: o == 1))
+        Z.append(dict(name="cartesian_points output of two: parity-broken (pos + cross product)",
+                      f=lambda p, x, y: (ctr(p), p + torch.linalg.cross(x, y)), args=[torch.randn(5, 3), torch.randn(5, 3), torch.randn(5, 3)],
+                      iin=["cartesian_points", I("1o"), I("1o")], iout=[I("1o"), "cartesian_points"],
+                      broken=lambda k, t, o: o == 1 and k == 1))
+        Z.append(dict(name="cartesian_points output of two: translation-broken (2*pos)",
+                      f=lambda p: (ctr(p), 2 * p), args=[torch.randn(5, 3)],
+                      iin=["cartesian_points"], iout=[I("1o"), "cartesian_points"], broken=lambda k, t, o: o == 1 and t))
+        Z.append(dict(name="cartesian_points + None outputs (control)",
+                      f=lambda p, x: [p + x, ctr(p).norm(dim=-1, keepdim=True), x], args=[torch.randn(5, 3), torch.randn(5, 3)],
+                      iin=["cartesian_points", I("1o")], iout=["cartesian_points", None, I("1o")], broken=none))
         Z.append(dict(name="parity-broken pseudo-scalar (0e declared for triple product)",
                       f=lambda x, y, z: (torch.linalg.cross(x, y) * z).sum(-1, keepdim=True),
                       args=[torch.randn(4, 3), torch.randn(4, 3), torch.randn(4, 3)], iin=[I("1o")] * 3, iout=[I("0e")],
@@ -692,16 +847,16 @@ class State:
                         scale = 1.0 + max(ind)
                         if not (vec[o] >= max(ind) - 1e-9 * scale):
                             self.found("equivariance_error/underestimates", {
-                                "function": z["name"], "ntrials": nt, "do_parity": dp, "do_translation": dt, "torch_seed": seed,
+                                "function": z["name"], "irreps_in": str(z["iin"]), "irreps_out": str(z["iout"]), "ntrials": nt, "do_parity": dp, "do_translation": dt, "torch_seed": seed,
                                 "case": c, "output": o, "reported": vec[o], "independent_deviation": max(ind)})
                         br = z["broken"](c[0], c[1], o)
                         if not br and not (vec[o] < 1e-9):
                             self.found("equivariance_error/false-positive", {
-                                "function": z["name"], "ntrials": nt, "do_parity": dp, "do_translation": dt, "torch_seed": seed,
+                                "function": z["name"], "irreps_in": str(z["iin"]), "irreps_out": str(z["iout"]), "ntrials": nt, "do_parity": dp, "do_translation": dt, "torch_seed": seed,
                                 "case": c, "output": o, "reported": vec[o], "expected": "< 1e-9 (function is equivariant in this case/output)"})
                         if br and not (vec[o] > 1e-3):
                             self.found("equivariance_error/misses-broken", {
-                                "function": z["name"], "ntrials": nt, "do_parity": dp, "do_translation": dt, "torch_seed": seed,
+                                "function": z["name"], "irreps_in": str(z["iin"]), "irreps_out": str(z["iout"]), "ntrials": nt, "do_parity": dp, "do_translation": dt, "torch_seed": seed,
                                 "case": c, "output": o, "reported": vec[o], "independent_deviation": max(ind),
                                 "expected": "> 1e-3 (function is not equivariant in this case/output)"})
                         self.ctx.count("eq-entry:" + ("broken" if br else "equivariant"))
@@ -729,7 +884,7 @@ class State:
                     self.ctx.count("assert_equivariant:" + got)
                     if got != exp:
                         self.found("assert_equivariant/threshold", {
-                            "function": z["name"], "ntrials": nt, "do_parity": dp, "do_translation": dt, "torch_seed": seed,
+                            "function": z["name"], "irreps_in": str(z["iin"]), "irreps_out": str(z["iout"]), "ntrials": nt, "do_parity": dp, "do_translation": dt, "torch_seed": seed,
                             "tolerance": tol, "max_error": allmax, "expected": exp, "got": got})
                     tol_results.append((tval, got))
                 # ---- model correspondence: the loop on the replica deviations, bit for bit -------------------
@@ -1048,7 +1203,7 @@ class State:
         # the positive theorem (tuple_output_fixed_ok) is the property; it applies iff the tree follows `fixed`
         ctx.obligation("property:tuple outputs measured (tuple_output_fixed_ok applies)", follows == "fixed" or
                        "assert_normalized/tuple-output" in self.viol,
-                       "tree follows the as-written wrapping but no failing input was reproduced")
+                       f"tree follows model '{follows}' and no failing tuple input was reproduced")
         # -- norm target --
         n_code = n_spec = n_diff = 0
         mism = {"code": [], "spec": []}
@@ -1077,7 +1232,7 @@ class State:
             self.corr("norm", "all", {"vs_code_model": mism["code"][:2], "vs_spec_model": mism["spec"][:2]})
         ctx.obligation("property:'norm' target is 1/dim (spec_target_accepts_exactly_normalized applies)",
                        follows == "spec" or "assert_normalized/norm-target" in self.viol,
-                       "tree follows the as-written target but no failing input was reproduced")
+                       f"tree follows model '{follows}' and no failing single-output 'norm' input was reproduced")
 
 
 # ----------------------------------------------------------------------------------------------
@@ -1133,6 +1288,39 @@ def replay(ctx, path):
             got = type(e).__name__ + ": " + str(e)
         print("expected pass | got", got)
         reproduced = got != "pass"
+    elif key == "assert_normalized/multi-output":
+        outs = [tuple(o) for o in rp["outs"]]
+        mod, irreps = make_multi_module(torch, o3, outs, rp["normalization"], rp["kind"], rp["container"], rp.get("n_params", 0))
+        torch.manual_seed(rp.get("torch_seed", 0))
+        try:
+            T.assert_normalized(mod, irreps_in=list(irreps), irreps_out=list(irreps), normalization=rp["normalization"],
+                                n_input=rp["n_input"], n_weight=rp["n_weight"], atol=rp["atol"])
+            got = "pass"
+        except Exception as e:
+            got = type(e).__name__ + ": " + str(e)
+        print("expected", rp["expected"], "| got", got)
+        reproduced = (got == "pass") != (rp["expected"] == "pass")
+    elif key in ("equivariance_error/misses-broken", "equivariance_error/underestimates", "equivariance_error/false-positive"):
+        ctx.seed = rp.get("seed", ctx.seed)  # the zoo (weights, arguments) is generated from the check seed
+        st = State(ctx, torch, o3, T)
+        z = [z for z in st.make_zoo() if z["name"] == rp["function"]]
+        if not z:
+            print("function not in the zoo any more:", rp["function"])
+            return 2
+        z = z[0]
+        torch.manual_seed(rp["torch_seed"])
+        r = T.equivariance_error(z["f"], z["args"], irreps_in=z["iin"], irreps_out=z["iout"], ntrials=rp["ntrials"],
+                                 do_parity=rp["do_parity"], do_translation=rp["do_translation"])
+        case = (int(rp["case"][0]), bool(rp["case"][1]))
+        val = float(r[case][rp["output"]])
+        print("function", z["name"], "case", case, "output", rp["output"], "reported", val, "| recorded", rp["reported"],
+              "| independent deviation", rp.get("independent_deviation"))
+        if key.endswith("false-positive"):
+            reproduced = not (val < 1e-9)
+        elif key.endswith("misses-broken"):
+            reproduced = not (val > 1e-3)
+        else:
+            reproduced = not (val >= rp["independent_deviation"] - 1e-9 * (1 + rp["independent_deviation"]))
     else:
         print("no dedicated replay for key", key, "- rerun ./check C20 with VERIF_SEED=%s" % rp.get("seed"))
         return 2
